@@ -94,6 +94,19 @@ theorem keyonly_visit_reads_no_value (f : Bytes) (bound : Nat) (cmp : Bytes → 
   exact ⟨out, c', rds, e, fun rd hrd => allowed_false_no_touch (h rd hrd) rng hd⟩
 
 open Gkv.Cache in
+/-- … also when the visitor stops it at its `b`-th item (the deferred evictions and the early
+    returns read nothing else) -/
+theorem keyonly_stopped_visit_reads_no_value (f : Bytes) (bound : Nat) (cmp : Bytes → Bytes → Ordering)
+    (asc : Bool) (tgt : Bytes) (fuel : Nat) (c : CTree) (T : Tree) (d b : Nat)
+    (hc : T.Coherent f bound) (hr : Rep c T) (hf : T.height < fuel) (hb : 0 < b)
+    (rng : Nat × Nat) (hd : KeyDisjoint rng T) :
+    ∃ out b' c' rds, visitCK f cmp asc false fuel c tgt d b = some (out, b', c', rds) ∧
+      ∀ rd ∈ rds, ¬ rd.touches rng := by
+  obtain ⟨out, b', c', rds, e, _, _, _, h⟩ :=
+    visitCK_spec f bound cmp asc false tgt fuel c T d b hc hr hf hb
+  exact ⟨out, b', c', rds, e, fun rd hrd => allowed_false_no_touch (h rd hrd) rng hd⟩
+
+open Gkv.Cache in
 /-- non-vacuity / discrimination: on a one-item file the cold key-only lookup reads the node record,
     the header and the key — and the lookup with the value also reads the value bytes -/
 example :
